@@ -33,14 +33,16 @@ Inductive ucr :=
 | UNorm (n : nst (ost csrc))
 | URb (r : rbst rsrc)
 | UBs (data : bytes)
-| UErr (e : err).
+| UErr (e : err)
+| UFail (e : err) (s : rsrc).  (* casReaderBuffer: discardFromReader failed, the source was
+                                 closed, an errorChunkReader is returned *)
 
 Definition ucr_open (fuel : nat) (b : bufscript) (off : N) : ucr :=
   match b with
   | BChunk evs => UNorm (mkNst (offset_init csrc_read csrc_close fuel (Z.of_N off) (mkCsrc evs 0)) [])
   | BReader evs attach =>
       let '(e, s) := discard_from_reader rsrc_read fuel (Z.of_N off) (mkRsrc evs attach 0) in
-      match e with ENone => URb (mkRbst s ENone) | _ => UErr e end
+      match e with ENone => URb (mkRbst s ENone) | _ => UFail e (rsrc_close s) end
   | BBytes data => if off <=? lenN data then UBs (dropN off data) else UErr (ECode 3)
   | BError c => UErr (ECode c)
   end.
@@ -49,7 +51,22 @@ Definition ucr_read (fuel : nat) (max : N) (u : ucr) : (bytes * err) * ucr :=
   | UNorm n => let '(r, n') := norm_read (offset_read csrc_read) fuel max n in (r, UNorm n')
   | URb r => let '(x, r') := rb_read rsrc_read fuel max r in (x, URb r')
   | UBs d => let '(x, d') := bs_read max d in (x, UBs d')
-  | UErr e => (([], e), u)
+  | UErr e | UFail e _ => (([], e), u)
+  end.
+(** Close() of the unvalidated chunk reader, and the Close() count of the
+    scripted source underneath (none for byte slices and error buffers). *)
+Definition ucr_close (u : ucr) : ucr :=
+  match u with
+  | UNorm n => UNorm (norm_close (offset_close csrc_close) n)
+  | URb r => URb (mkRbst (rsrc_close (rb_u r)) (rb_err r))
+  | _ => u
+  end.
+Definition ucr_closes (u : ucr) : list nat :=
+  match u with
+  | UNorm n => [c_closed (o_u (n_u n))]
+  | URb r => [r_closed (rb_u r)]
+  | UFail _ s => [r_closed s]
+  | _ => []
   end.
 
 (** * errorHandlingChunkReader *)
@@ -80,13 +97,14 @@ Inductive urd :=
 | RCb (c : cbst (ost csrc))
 | RRaw (s : rsrc)
 | RBb (data : bytes)
-| RErr (e : err).
+| RErr (e : err)
+| RFail (e : err) (s : rsrc).
 Definition urd_open (fuel : nat) (b : bufscript) (off : N) : urd :=
   match b with
   | BChunk evs => RCb (mkCbst (offset_init csrc_read csrc_close fuel (Z.of_N off) (mkCsrc evs 0)) [])
   | BReader evs attach =>
       let '(e, s) := discard_from_reader rsrc_read fuel (Z.of_N off) (mkRsrc evs attach 0) in
-      match e with ENone => RRaw s | _ => RErr e end
+      match e with ENone => RRaw s | _ => RFail e (rsrc_close s) end
   | BBytes data => if off <=? lenN data then RBb (dropN off data) else RErr (ECode 3)
   | BError c => RErr (ECode c)
   end.
@@ -95,7 +113,20 @@ Definition urd_read (fuel : nat) (cap : N) (u : urd) : (bytes * err) * urd :=
   | RCb c => let '(x, c') := cb_read (offset_read csrc_read) fuel cap c in (x, RCb c')
   | RRaw s => let '(x, s') := rsrc_read cap s in (x, RRaw s')
   | RBb d => let '(x, d') := bb_read cap d in (x, RBb d')
-  | RErr e => (([], e), u)
+  | RErr e | RFail e _ => (([], e), u)
+  end.
+Definition urd_close (u : urd) : urd :=
+  match u with
+  | RCb c => RCb (cb_close (offset_close csrc_close) c)
+  | RRaw s => RRaw (rsrc_close s)
+  | _ => u
+  end.
+Definition urd_closes (u : urd) : list nat :=
+  match u with
+  | RCb c => [c_closed (o_u (cb_u c))]
+  | RRaw s => [r_closed s]
+  | RFail _ s => [r_closed s]
+  | _ => []
   end.
 
 Record ehr := mkEhr { er_cur : urd; er_off : N; er_h : hst }.
@@ -217,3 +248,218 @@ Section ErrorHandling.
         mkOut16 (o_data o) (o_err o) (o_extra o) (o_cbs o) (h_log h) (o_aux o)
     end.
 End ErrorHandling.
+
+(** * Stacks of error handlers
+
+    [WithErrorHandler(WithErrorHandler(b0, h0), h1) ...]: a
+    casErrorHandlingBuffer is itself stream-backed, so applying a further
+    handler wraps it again (casErrorHandlingBuffer.applyErrorHandler).  The
+    readers nest in the same way: the errorHandlingChunkReader of level l+1
+    reads from the errorHandlingChunkReader of level l, which reads from the
+    unvalidated reader of a plain buffer.
+
+    What the nesting does, flattened.  Handlers are numbered from the innermost
+    one.  At any time the levels [lo ..] are "active" (their reader objects
+    exist, nested in that order, above ONE reader of a plain buffer) and the
+    levels below [lo] are finished (Done reported):
+    - an I/O error of the plain reader is offered to level [lo]; an error
+      answer of level l is what level l+1 is offered, the error answer of the
+      outermost level is what the consumer gets ([escalate]);
+    - a replacement buffer returned by level l is opened at the delivered
+      offset in place of l's underlying reader, which is closed: that reports
+      Done to the levels below l and closes the plain reader underneath;
+    - every chunk passes through all active levels unchanged, so all of them
+      hold the same delivered offset;
+    - Close() of the outermost reader reports Done to every active level and
+      closes the plain reader.
+    Replacement buffers are plain buffers ([bufscript]).
+
+    [w_closed]: the Close() counts of the scripted sources of the stream-backed
+    plain buffers that are no longer in use, in the order in which the buffers
+    were created; the count is taken from the source itself ([c_closed],
+    [r_closed]) when the reader that owns it is given up. *)
+Record world := mkW {
+  w_dn : list hst;          (* finished levels, innermost first *)
+  w_act : list hst;         (* active levels, innermost first *)
+  w_closed : list nat
+}.
+Definition all_done (w : world) : world := mkW (w_dn w ++ map done (w_act w)) [] (w_closed w).
+Definition retire (w : world) (c : list nat) : world := mkW (w_dn w) (w_act w) (w_closed w ++ c).
+
+(** Offer [e] to the active levels in turn.  [(Some b, _), passed, rest]: the
+    levels [passed] answered with errors and the head of [rest] with the
+    replacement [b]; [(None, e'), passed, []]: every level answered with an
+    error, [e'] is the answer of the outermost one. *)
+Fixpoint escalate (e : err) (act : list hst) : (option bufscript * err) * list hst * list hst :=
+  match act with
+  | [] => ((None, e), [], [])
+  | h :: rest =>
+      let '(a, h') := on_error h e in
+      match a with
+      | Replace b => ((Some b, e), [], h' :: rest)
+      | Fail c => let '(r, passed, act') := escalate (ECode c) rest in (r, h' :: passed, act')
+      end
+  end.
+(** the world after [escalate]: a replacement finishes the levels passed *)
+Definition after_replace (w : world) (passed act' : list hst) (c : list nat) : world :=
+  mkW (w_dn w ++ map done passed) act' (w_closed w ++ c).
+Definition after_failure (w : world) (passed : list hst) : world := mkW (w_dn w) passed (w_closed w).
+
+(** nested errorHandlingChunkReaders *)
+Record sch := mkSch { sc_cur : ucr; sc_off : N; sc_w : world }.
+Definition sch_init (ifuel : nat) (b : bufscript) (w : world) : sch := mkSch (ucr_open ifuel b 0) 0 w.
+Fixpoint sch_read (ifuel fuel : nat) (max : N) (r : sch) : (bytes * err) * sch :=
+  match fuel with
+  | O => (([], EFuel), r)
+  | Datatypes.S f =>
+      let '((chunk, e), cur') := ucr_read ifuel max (sc_cur r) in
+      match e with
+      | ENone => ((chunk, ENone), mkSch cur' (sc_off r + lenN chunk) (sc_w r))
+      | EEof => (([], EEof), mkSch cur' (sc_off r) (sc_w r))
+      | _ =>
+          let '((ob, e'), passed, act') := escalate e (w_act (sc_w r)) in
+          match ob with
+          | None => (([], e'), mkSch cur' (sc_off r) (after_failure (sc_w r) passed))
+          | Some b =>
+              sch_read ifuel f max
+                (mkSch (ucr_open ifuel b (sc_off r)) (sc_off r)
+                       (after_replace (sc_w r) passed act' (ucr_closes (ucr_close cur'))))
+          end
+      end
+  end.
+Definition sch_close (r : sch) : sch :=
+  mkSch (ucr_close (sc_cur r)) (sc_off r) (retire (all_done (sc_w r)) (ucr_closes (ucr_close (sc_cur r)))).
+
+(** nested errorHandlingReaders *)
+Record shr := mkShr { sr_cur : urd; sr_off : N; sr_w : world }.
+Definition shr_init (fuel : nat) (b : bufscript) (w : world) : shr := mkShr (urd_open fuel b 0) 0 w.
+Definition shr_read (fuel : nat) (cap : N) (r : shr) : (bytes * err) * shr :=
+  let '((data, e), cur') := urd_read fuel cap (sr_cur r) in
+  let off' := sr_off r + lenN data in
+  match e with
+  | ENone | EEof => ((data, e), mkShr cur' off' (sr_w r))
+  | _ =>
+      let '((ob, e'), passed, act') := escalate e (w_act (sr_w r)) in
+      match ob with
+      | None => ((data, e'), mkShr cur' off' (after_failure (sr_w r) passed))
+      | Some b => ((data, ENone), mkShr (urd_open fuel b off') off'
+                                        (after_replace (sr_w r) passed act' (urd_closes (urd_close cur'))))
+      end
+  end.
+Definition shr_close (r : shr) : shr :=
+  mkShr (urd_close (sr_cur r)) (sr_off r) (retire (all_done (sr_w r)) (urd_closes (urd_close (sr_cur r)))).
+
+Record outcome16s := mkOut16s {
+  y_data : bytes; y_err : err; y_extra : list err; y_cbs : list bool;
+  y_logs : list (list hev);      (* calls received by each handler, innermost first *)
+  y_closes : list nat;           (* Close() count of each stream-backed plain buffer, creation order *)
+  y_aux : bytes
+}.
+Definition logs_of (w : world) : list (list hev) := map h_log (w_dn w ++ w_act w).
+
+Section Stack.
+  Variable H : bytes -> bytes.
+  Variable cfg : vcfg.
+  Variable fuel : nat.
+  Let size := g_size cfg.
+
+  (** the Close() count of the source of [b] after the whole operation [o] on it *)
+  Definition closes_of (b : bufscript) (o : outcome) : list nat :=
+    match b with BChunk _ | BReader _ _ => [o_closed o] | _ => [] end.
+
+  (** Applying the handlers one after the other, innermost first. *)
+  Fixpoint stack_handlers (b : bufscript) (w : world) (hs : list hst) : bufscript * world :=
+    match hs with
+    | [] => (b, w)
+    | h :: rest =>
+        match w_act w with
+        | _ :: _ => stack_handlers b (mkW (w_dn w) (w_act w ++ [h]) (w_closed w)) rest
+        | [] =>
+            let '(r, h') := with_error_handler (Datatypes.S (length (h_answers h))) b h in
+            match r with
+            | inl b' => stack_handlers b' (mkW (w_dn w) [h'] (w_closed w)) rest
+            | inr b' => stack_handlers b' (mkW (w_dn w ++ [h']) [] (w_closed w)) rest
+            end
+        end
+    end.
+
+  (** nested tryRepeatedly: the operation is applied to the plain buffer in
+      use; its error is offered upwards; a replacement is tried by the level
+      that supplied it (the levels below have returned: deferred Done) *)
+  Fixpoint try_stack (n : nat) (m : meth) (b : bufscript) (w : world) (cbs : list bool)
+    : bytes * err * list bool * world :=
+    let o := plain H cfg fuel b m in
+    let cbs := cbs ++ o_cbs o in
+    let w := retire w (closes_of b o) in
+    match o_err o with
+    | ENone | EEof => (o_data o, o_err o, cbs, all_done w)
+    | e =>
+        let '((ob, e'), passed, act') := escalate e (w_act w) in
+        match ob with
+        | None => ([], e', cbs, all_done (after_failure w passed))
+        | Some b' =>
+            match n with
+            | O => ([], EFuel, cbs, w)
+            | Datatypes.S n' => try_stack n' m b' (after_replace w passed act' []) cbs
+            end
+        end
+    end.
+
+  Definition shv := vst sch.
+  Definition shv_read (max : N) : shv -> (bytes * err) * shv := vcr_read H cfg (sch_read fuel fuel max) fuel.
+  Definition shv_close (st : shv) : shv := v_set_u st (sch_close (v_u st)).
+  Definition shrv := vst shr.
+  Definition shrv_read : N -> shrv -> (bytes * err) * shrv := vr_read H cfg (shr_read fuel) fuel.
+
+  Definition discarded (b : bufscript) (w : world) : world :=
+    retire (all_done w) (closes_of b (plain H cfg fuel b MDiscard)).
+
+  (** more retries than there are answers left *)
+  Definition answers_left (act : list hst) : nat := fold_right (fun h n => (length (h_answers h) + n)%nat) O act.
+
+  Definition ehs_method (b : bufscript) (w : world) (m : meth) : outcome16s :=
+    let n := Datatypes.S (answers_left (w_act w)) in
+    match m with
+    | MToByteSlice _ | MReadAt _ _ =>
+        let '(d, e, cbs, w') := try_stack n m b w [] in mkOut16s d e [] cbs (logs_of w') (w_closed w') []
+    | MCloneCopy max =>
+        let '(d, e, cbs, w') := try_stack n (MToByteSlice max) b w [] in
+        match e with
+        | ENone => mkOut16s d ENone [ENone] cbs (logs_of w') (w_closed w') d
+        | _ => mkOut16s [] e [e] cbs (logs_of w') (w_closed w') []
+        end
+    | MIntoWriter =>
+        let '((out, e), st) := into_writer_cr (shv_read 65536) shv_close fuel (vinit cfg (sch_init fuel b w)) in
+        let w' := sc_w (v_u st) in
+        mkOut16s out e [] (v_cbs st) (logs_of w') (w_closed w') []
+    | MToChunkReader off max k =>
+        if valid_offset size off then
+          let o0 := offset_init (shv_read max) shv_close fuel off (vinit cfg (sch_init fuel b w)) in
+          let '((out, e), o) := drain (offset_read (shv_read max)) fuel [] o0 in
+          let '(ex, o) := extra_reads (offset_read (shv_read max)) k o in
+          let o := offset_close shv_close o in
+          let w' := sc_w (v_u (o_u o)) in
+          mkOut16s out e (errs_of ex) (v_cbs (o_u o)) (logs_of w') (w_closed w') (datas_of ex)
+        else
+          let w' := discarded b w in
+          mkOut16s [] (ECode 3) (repeat (ECode 3) k) [] (logs_of w') (w_closed w') []
+    | MToReader caps k =>
+        let '((out, e), st) := rconsume shrv_read fuel caps (last_cap caps) [] (vinit cfg (shr_init fuel b w)) in
+        let '(ex, st) := rextra shrv_read k (last_cap caps) st in
+        let st := v_set_u st (shr_close (v_u st)) in
+        let w' := sr_w (v_u st) in
+        mkOut16s out e (errs_of ex) (v_cbs st) (logs_of w') (w_closed w') (datas_of ex)
+    | MDiscard =>
+        let w' := discarded b w in mkOut16s [] ENone [] [] (logs_of w') (w_closed w') []
+    end.
+
+  (** [anss]: the script of each handler, innermost first. *)
+  Definition run_stack (b0 : bufscript) (anss : list (list answer)) (m : meth) : outcome16s :=
+    let '(b, w) := stack_handlers b0 (mkW [] [] []) (map (fun a => mkHst a []) anss) in
+    match w_act w with
+    | [] =>
+        let o := plain H cfg fuel b m in
+        mkOut16s (o_data o) (o_err o) (o_extra o) (o_cbs o) (logs_of w) (w_closed w ++ closes_of b o) (o_aux o)
+    | _ :: _ => ehs_method b w m
+    end.
+End Stack.
